@@ -118,6 +118,11 @@ class Adapter:
     def entry_fields(self, res):
         return [res[k] for k in self.keys]
 
+    def internal(self, simu):
+        """committed internal variables that are not live fields (name -> array/dict), compared with the
+        ghost after every restore"""
+        return {}
+
     def bc(self, simu, n):
         raise NotImplementedError
 
@@ -303,6 +308,9 @@ class InElastic(Adapter):
         z = simu._InElastic__z
         return [simu.displacement, {k: np.asarray(v) for k, v in z.items()}]
 
+    def internal(self, simu):
+        return {"committed_state": {k: np.asarray(v) for k, v in simu._InElastic__zOld.items()}}
+
     def bc(self, simu, n):
         n0, nL = _edges(simu)
         simu.add_dirichlet(n0, [0, 0], ["x", "y"])
@@ -369,6 +377,10 @@ class Run:
         self.events = []
         self.last_store = {}
         self.corrupt = {}
+        self.mesh_id = 0        # the harness's own count of mesh assignments (index of the current mesh in the history)
+        self.cur_mesh = 0
+        self.load_of = {}       # first token of a Solve -> load counter used (a Solve re-using tokens replays that load)
+        self.reg_arr = {}
 
     def folder(self, f):
         return "" if f == 0 else os.path.join(self.root, "f%d" % f)
@@ -379,7 +391,7 @@ class Run:
         s = self.simu
         for i in range(s.Niter):
             try:
-                r = s.Get_results(i)
+                r = raw_entry(s, i)   # NOT through Get_results: observing must not perturb what is observed
                 out.append([int(r["indexMesh"])] + [sha(x) for x in self.ad.entry_fields(r)])
             except Exception as ex:  # unreadable entry
                 out.append(["ERR", type(ex).__name__])
@@ -401,6 +413,11 @@ class Run:
         bad = [self.ad.keys[k] for k in range(len(live)) if sha(live[k]) != sha(g[2][k])]
         if bad:
             self.fail("restore-fields", step, {"iter": i, "via": via, "fields": bad, "entry_corrupted_by": self.corrupt.get(i)})
+        intern = self.ad.internal(s)
+        badi = [k for k in intern if sha(intern[k]) != sha(g[4][k]) and not (iszero(intern[k]) and iszero(g[4][k]))]
+        if badi:
+            self.fail("restore-internal", step, {"iter": i, "via": via, "internal": badi})
+        self.cur_mesh = g[0]
         if int(s._Simu__indexMesh) != g[0] or mesh_sig(s.mesh) != g[1]:
             self.fail("restore-mesh", step, {"iter": i, "via": via, "indexMesh": int(s._Simu__indexMesh), "expected": g[0]})
 
@@ -422,12 +439,37 @@ class Run:
         name = op[0]
         s = self.simu
         ad = self.ad
+        neg = None
+        if name in ("GetResultsNeg", "SetIterNeg", "ResultQNeg"):
+            # python-style index -k, meaning "k-th from the end of the history as it is NOW"
+            neg = -int(op[1])
+            i_now = s.Niter + neg if 1 <= -neg <= s.Niter else s.Niter   # out of range -> must be rejected
+            name = name[:-3]
+            op = [name, i_now] + list(op[2:])
         if name == "Solve":
             toks = op[1]
-            ad.solve(s, self.nsolve % 7)
-            self.nsolve += 1
-            for t, a in zip(toks, ad.live(s)):
-                self.reg[str(t)] = sha(a)
+            if toks[0] in self.load_of:
+                # continuation replay: same load as the Solve that originally produced these tokens, from the
+                # restored iteration it started from: must reproduce it (1e-9 relative: re-assembled operators)
+                ad.solve(s, self.load_of[toks[0]])
+                for k, (t, a) in enumerate(zip(toks, ad.live(s))):
+                    ref = self.reg_arr[t]
+                    if isinstance(a, dict):
+                        d = max([float(np.max(np.abs(np.asarray(a[e]) - np.asarray(ref[e])))) if e in ref and np.shape(a[e]) == np.shape(ref[e]) else float("inf") for e in a] + [0.0 if set(a) == set(ref) else float("inf")])
+                        sc = max([float(np.max(np.abs(ref[e]))) for e in ref] + [1e-300])
+                    else:
+                        d = float(np.max(np.abs(a - ref))) if np.shape(a) == np.shape(ref) else float("inf")
+                        sc = max(float(np.max(np.abs(ref))), 1e-300)
+                    if d > 1e-9 * sc + 1e-13:
+                        self.fail("continuation-differs", n, {"field": ad.keys[k], "max_abs_diff": d, "scale": sc})
+                    self.reg.setdefault(str(t), []).append(sha(a))   # a replay may differ in the last bits
+            else:
+                ad.solve(s, self.nsolve % 7)
+                self.load_of[toks[0]] = self.nsolve % 7
+                self.nsolve += 1
+                for t, a in zip(toks, ad.live(s)):
+                    self.reg[str(t)] = [sha(a)]
+                    self.reg_arr[t] = deep(a)
             self.check_store_vs_ghost(n, "Solve")
         elif name == "SaveIter":
             s.Save_Iter()
@@ -435,7 +477,7 @@ class Run:
             resv = []
             for rname in ad.results:
                 resv.append(None if rname is None else deep(s.Result(rname)))
-            self.ghost.append((int(s._Simu__indexMesh), mesh_sig(s.mesh), live, resv))
+            self.ghost.append((self.cur_mesh, mesh_sig(s.mesh), live, resv, {k: deep(v) for k, v in ad.internal(s).items()}))
             self.check_store_vs_ghost(n, "SaveIter")
         elif name == "SetFolder":
             s.folder = self.folder(op[1])
@@ -445,7 +487,7 @@ class Run:
             before = self.obs()
             try:
                 # python-style negative indices address the same entries
-                r = s.Get_results(i - s.Niter if (0 <= i < s.Niter and (i + n) % 3 == 0) else i)
+                r = s.Get_results(neg if neg is not None else (i - s.Niter if (0 <= i < s.Niter and (i + n) % 3 == 0) else i))
             except AssertionError:
                 if 0 <= i < s.Niter:
                     raise   # a valid index must not be rejected
@@ -463,7 +505,10 @@ class Run:
         elif name == "SetIter":
             i = op[1]
             try:
-                r = s.Set_Iter(i - s.Niter if (0 <= i < s.Niter and (i + n) % 3 == 0) else i)
+                if neg == -1 and n % 2 == 0:
+                    r = s.Set_Iter()   # default argument = the last iteration
+                else:
+                    r = s.Set_Iter(neg if neg is not None else (i - s.Niter if (0 <= i < s.Niter and (i + n) % 3 == 0) else i))
             except AssertionError:
                 if 0 <= i < s.Niter:
                     raise   # a valid index must not be rejected
@@ -476,17 +521,17 @@ class Run:
             i, k = op[1], op[2]
             rname = ad.results[k]
             try:
+                it = neg if neg is not None else i
                 if rname is None:
-                    s.Set_Iter(i)
+                    s.Set_Iter(it)
                     v = deep(ad.live(s)[k])
                 else:
-                    v = s.Result(rname, iter=i)
+                    v = s.Result(rname, iter=it)
             except AssertionError:
                 if 0 <= i < s.Niter:
                     raise   # a valid index must not be rejected
                 self.events.append([n, "ResultQ-invalid"])
                 return
-            r = s.Get_results(i)
             # Result(iter=i) = Set_Iter(i) + getter
             self.handed = [v]
             self.handed_src = "Result"
@@ -498,7 +543,7 @@ class Run:
             k, tok = op[1], op[2]
             if k < len(self.handed):
                 c = 1000.0 + tok
-                self.reg[str(tok)] = sha(filled_like(self.handed[k], c))
+                self.reg[str(tok)] = [sha(filled_like(self.handed[k], c))]
                 livebefore = [sha(x) for x in ad.live(s)]
                 fill(self.handed[k], c)
                 self.wrote.append(self.handed_src)
@@ -510,6 +555,8 @@ class Run:
             if not ad.can_setmesh:
                 return
             s.mesh = ad.new_mesh()
+            self.mesh_id += 1
+            self.cur_mesh = self.mesh_id
             self.check_store_vs_ghost(n, "SetMesh")
         elif name == "SaveLoad":
             if not ad.can_saveload:
@@ -554,7 +601,7 @@ class Run:
                 o["store_zero"] = []
                 for i in range(self.simu.Niter):
                     try:
-                        o["store_zero"].append([bool(iszero(x)) for x in self.ad.entry_fields(self.simu.Get_results(i))])
+                        o["store_zero"].append([bool(iszero(x)) for x in self.ad.entry_fields(raw_entry(self.simu, i))])
                     except Exception:
                         o["store_zero"].append([])
                 o["entries"] = ["disk" if isinstance(s_entry(self.simu, i), str) else "mem" for i in range(self.simu.Niter)]
@@ -565,6 +612,16 @@ class Run:
 
 def s_entry(simu, i):
     return simu._Simu__list_results[i]
+
+
+def raw_entry(simu, i):
+    """the stored iteration as it is in the history: the dict itself, or the pickle at the pinned path
+    (MPI_SIZE == 1: the pickle holds the plain dict)"""
+    e = s_entry(simu, i)
+    if isinstance(e, str):
+        with open(e, "rb") as f:
+            return pickle.load(f)
+    return e
 
 
 # ------------------------------------------------------------------------------------------
